@@ -110,6 +110,18 @@ let run_array toks =
            done;
            (match !last with Some x -> add (" S" ^ zs x) | None -> add " N");
            add (" L" ^ zs (vlen v !s))) (S.split_on_char ',' ops))
+  (* View::to_array: the model's [view_to_array], then [get] at every index of the copy and the copy's own views *)
+  | ["toarray"; sh; a; i] ->
+    (match get_axis (ramp (parse_list sh)) (ZA.of_string a) (ZA.of_string i) with
+     | None -> add "None"
+     | Some v ->
+       let c = view_to_array v in
+       add ("S" ^ fmt_list c.ashape ^ " D" ^ S.concat ";" (List.map zs c.adata));
+       add (" G" ^ S.concat ";" (List.map (fun idx -> match get c idx with Some x -> zs x | None -> "N") (indices c.ashape)));
+       List.iteri (fun b len ->
+           match get_axis c (ZA.of_int b) (ZA.pred len) with
+           | Some w -> let items = view_items w in add (" A" ^ (if items = [] then "-" else S.concat ";" (List.map zs items)))
+           | None -> add " AN") c.ashape)
   | ["sum"; sh; a; data] ->
     let x = { adata = parse_list data; ashape = parse_list sh } in
     let s = z_sum_axis x (ZA.of_string a) in
@@ -361,7 +373,8 @@ let run_stat toks =
   | _ -> add "BAD-CASE"
 
 (* ---------------------------------------------------------------- streams *)
-let parse_opt s = if s = "-" then None else Some (ZA.of_string s)
+(* "N:kind": the kind of an injected failure is no part of the model (any failure is an error) *)
+let parse_opt s = if s = "-" then None else Some (ZA.of_string (List.hd (S.split_on_char ':' s)))
 let run_stream toks =
   match toks with
   | ["cnpy"; hex; sched; fail] ->
@@ -380,7 +393,7 @@ let run_case line =
   | [] -> ()
   | op :: _ ->
     (match op with
-     | "get" | "getmut" | "getaxis" | "view" | "axisiter" | "indices" | "indiceshist" | "viewhist" | "sum" -> run_array toks
+     | "get" | "getmut" | "getaxis" | "view" | "axisiter" | "indices" | "indiceshist" | "viewhist" | "toarray" | "sum" -> run_array toks
      | "fold" | "marg" | "keep" | "project" | "pmf" | "binom" -> run_spectrum toks
      | "npyw" | "npyr" | "textw" | "read" | "fmt" | "parse" | "detect" -> run_bytes toks
      | "classify" | "sites" | "create" | "smapfile" | "genosm" | "genosv" -> run_create toks
